@@ -39,3 +39,31 @@ Example C01_witness :
   | _ => False
   end.
 Proof. vm_compute. reflexivity. Qed.
+
+(* ---------- the stream header ---------- *)
+From KV Require Import Model.OutBS Model.InBS Model.Header Proofs.OutBSProofs Proofs.InBSProofs Proofs.MirrorProofs Proofs.HeaderProofs.
+
+(* writeHeader then readHeader (format version 6), for every valid configuration (checksum kind,
+   entropy and transform types accepted by GetName, block size, size hint), whatever the Writer
+   writes after the header, every buffer size on both sides and chunk schedule of the source: the
+   header is accepted with the same fields (a hint of 0 or >= 2^48 reads back as absent) and the
+   rest of the stream is read exactly as written *)
+Theorem C01_header_roundtrip : forall (evalid tvalid : N -> bool) wbuf rbuf sched c rest_ops,
+  cfg_ok evalid tvalid c -> (16 <= wbuf)%N -> (0 < rbuf)%N -> Forall wop_ok rest_ops ->
+  exists s1 s2 s', run_wops (new_obs wbuf) (field_ops (header_fields c) ++ rest_ops) = (s1, false) /\
+    close healthy s1 = (s2, false) /\
+    read_header evalid tvalid (new_ibs rbuf (mkSrc (o_out s2) sched None 0)) = (s', HOk (norm_cfg c)) /\
+    run_rops s' (rops_of rest_ops) = vals_of rest_ops.
+Proof. exact header_roundtrip. Qed.
+Print Assumptions C01_header_roundtrip.
+
+Example C01_header_instance :
+  let c := mkH 1 3 (2 * 2 ^ 42 + 5 * 2 ^ 36)%N 4194304 100000 in
+  match run_wops (new_obs 64) (field_ops (header_fields c) ++ [WBits 1 1; WBits 0 5]) with
+  | (s1, false) => match close healthy s1 with
+     | (s2, false) => length (o_out s2) = 25%nat /\
+         snd (read_header (fun _ => true) (fun _ => true) (new_ibs 16 (mkSrc (o_out s2) [1; 7; 2]%N None 0))) = HOk c
+     | _ => False end
+  | _ => False
+  end.
+Proof. vm_compute. split; reflexivity. Qed.
